@@ -1,0 +1,87 @@
+//go:build verif
+
+package nfsv4
+
+import (
+	"github.com/buildbarn/go-xdr/pkg/protocols/nfsv4"
+)
+
+// VerifStateCounts returns the number of records of every kind that an
+// NFSv4.0 or NFSv4.1 program currently retains. It is a read-only
+// accessor that is only compiled when the "verif" build tag is set.
+// It must not be called while another goroutine holds one of the
+// program's locks indefinitely.
+//
+// Keys (absent kinds are reported as zero):
+//
+//	clients, incarnations (4.0: confirmations), confirmed, sessions,
+//	open_owners, open_owner_files, lock_owners, lock_owner_files,
+//	pool_files, pool_locks
+//
+// Unknown program types yield nil.
+func VerifStateCounts(program nfsv4.Nfs4Program) map[string]int {
+	switch p := program.(type) {
+	case *nfs40Program:
+		return verifStateCounts40(p)
+	case *nfs41Program:
+		return verifStateCounts41(p)
+	default:
+		return nil
+	}
+}
+
+func verifPoolCounts(ofp *OpenedFilesPool, counts map[string]int) {
+	ofp.lock.RLock()
+	defer ofp.lock.RUnlock()
+	counts["pool_files"] = len(ofp.filesByHandle)
+	locks := 0
+	for _, of := range ofp.filesByHandle {
+		of.locksLock.RLock()
+		locks += len(of.locks.VerifEntries())
+		of.locksLock.RUnlock()
+	}
+	counts["pool_locks"] = locks
+}
+
+func verifStateCounts40(p *nfs40Program) map[string]int {
+	counts := map[string]int{}
+	p.lock.Lock()
+	counts["clients"] = len(p.clientsByLongID)
+	counts["incarnations"] = len(p.clientConfirmationsByKey)
+	counts["open_owner_files"] = len(p.openOwnerFilesByOther)
+	counts["lock_owner_files"] = len(p.lockOwnerFilesByOther)
+	for _, client := range p.clientsByLongID {
+		if confirmed := client.confirmed; confirmed != nil {
+			counts["confirmed"]++
+			counts["open_owners"] += len(confirmed.openOwners)
+			counts["lock_owners"] += len(confirmed.lockOwners)
+		}
+	}
+	p.lock.Unlock()
+	verifPoolCounts(p.openedFilesPool, counts)
+	return counts
+}
+
+func verifStateCounts41(p *nfs41Program) map[string]int {
+	counts := map[string]int{}
+	p.clientsLock.Lock()
+	counts["clients"] = len(p.clientsByOwnerID)
+	counts["incarnations"] = len(p.clientIncarnationsByClientID)
+	counts["sessions"] = len(p.sessionsBySessionID)
+	for _, client := range p.clientsByOwnerID {
+		if client.confirmedIncarnation != nil {
+			counts["confirmed"]++
+		}
+	}
+	for _, cis := range p.clientIncarnationsByClientID {
+		cis.lock.RLock()
+		counts["open_owners"] += len(cis.openOwnersByOwner)
+		counts["open_owner_files"] += len(cis.openOwnerFilesByOther)
+		counts["lock_owners"] += len(cis.lockOwnersByOwner)
+		counts["lock_owner_files"] += len(cis.lockOwnerFilesByOther)
+		cis.lock.RUnlock()
+	}
+	p.clientsLock.Unlock()
+	verifPoolCounts(p.openedFilesPool, counts)
+	return counts
+}
